@@ -1,8 +1,8 @@
 SPECIFICATION Spec
 CONSTANTS
-  MaxIdx = 5
+  MaxIdx = 4
   MaxTerm = 2
-  MaxReady = 4
+  MaxReady = 3
   InstallSaveFirst = FALSE
   SnapshotMustBeInWal = TRUE
   MaxCrash = 2
